@@ -41,3 +41,12 @@ pub open spec fn while_shape(r: Seq<Stmt>, cond: AExpr, body: AExpr, c: Seq<char
             && is_break_unless(lb.stmts@[a.len() as int], cg)                                              // then the exit test
             && lb.stmts@.subrange(a.len() as int + 1, lb.stmts@.len() as int) == effect_stmts(body))       // then the body
 }
+
+// ---- `if` evaluates only the selected branch ----
+#[verifier::external_body] pub struct ImmExpr { _p: u64 }          // anf::ImmExpr (an atom: variable or constant)
+pub uninterp spec fn imm_spec(i: ImmExpr) -> Expr;
+#[verifier::external_body] pub fn compile_imm(goenv: &GlobalGoEnv, imm: &ImmExpr) -> (r: Expr) ensures r == imm_spec(*imm) { unimplemented!() }
+// the Go statement for `if cond { then } else { else_ }`: the branches' statements are INSIDE the two blocks and nowhere else
+pub open spec fn if_shape(r: Seq<Stmt>, cond: ImmExpr, t: Seq<Stmt>, e: Seq<Stmt>) -> bool {
+    r.len() == 1 && (r[0] matches Stmt::If { cond: c, then: tb, else_: eb } && c == imm_spec(cond) && tb.stmts@ == t && eb is Some && eb->0.stmts@ == e)
+}
